@@ -29,11 +29,20 @@ PROPS = {
             "Connection tasks are polled by the harness (collecting Executor) after every event; the user drains the NotificationHandle after every event",
             "the 10 s handshake timeout of HandshakeService and the keep-alive downgrade of TransportService are not exercised (a handshake timeout is the same NegotiationError event as a failed handshake); the 5 s timer is fired through a hook",
         ],
-        "level_text": "Proof about the model of the per-peer state machine, the Connection-task life cycle, the handshake-service membership "
-                      "and the NotificationHandle gate; the model is tied to mod.rs/connection.rs/negotiation.rs/handle.rs by a per-event "
-                      "differential run with state dumps.",
-        "level_note": "Handlers are atomic in the model: `.await`s inside a handler (full user event channel parks the loop) are not modelled; "
-                      "notifications themselves (C12) are not modelled.",
+        "level_text": "Partial proof. Proved about the model (all configurations, unbounded histories): the per-peer event grammar "
+                      "(Opened/Closed alternate, no OpenFailure while open) for histories in which Connection tasks close promptly, by an "
+                      "inductive invariant tying live Connection tasks, PeerState::Open, the handle gate and the grammar state together "
+                      "(C11_alternation), with a machine-checked counterexample when closes are slow (C11_alternation_refuted, known finding "
+                      "class 1); Opened is only emitted from a state whose inbound substream was accepted (C11_opened_needs_accepted_inbound, "
+                      "any state); Closed is emitted in the step that handles a disconnect or a user close of an open stream "
+                      "(C11_closed_on_disconnect, C11_closed_on_user_close); the kept-failed-id wedge is exhibited (C11_open_answered_refuted, "
+                      "known finding class 2). Checked on every trace by the oracle but NOT proved: absence of stuck/Poisoned states "
+                      "(debug_assert!(false)) under the environment guards, isolation between peers, the accept-origin of the accepted "
+                      "inbound state, the open-request ledger. The model is tied to mod.rs/connection.rs/negotiation.rs/handle.rs by a "
+                      "per-event differential run with state dumps (0 disagreements in 120 000 histories).",
+        "level_note": "Handlers are atomic in the model: `.await`s inside a handler (a full user event channel parks the loop) are not modelled; "
+                      "notifications themselves (C12) are not modelled; the stale-shutdown defect was repaired (fix: commit) and its witness "
+                      "stays in the corpus; two findings are recorded in KNOWN_FINDINGS.txt.",
         "assumptions": ["events arrive as the TransportService contract allows (C08): established/closed alternate per peer, substream results only for "
                         "requested ids on the live connection, handshake events only for substreams handed to the HandshakeService; these are the guards of Model.main_handler",
                         "alternation additionally assumes Connection tasks close promptly (no Gate / gated TaskDie event)"],
